@@ -140,7 +140,7 @@ func runC02(c *Ctx) {
 		seqs = append(seqs, nil) // random
 	}
 	for si, seq := range seqs {
-		cfg := baseCfgs[r.Intn(len(baseCfgs))]
+		cfg := baseCfg(r, r.Intn(len(baseCfgs)))
 		o := histOpts{units: 3 + r.Intn(10), maxCols: 4, maxRows: 2, rotations: true, ignorables: true}
 		var h *history
 		if seq != nil {
@@ -255,7 +255,7 @@ func runC03(c *Ctx) {
 	r := c.Rng
 	nh := c.N(10, 250)
 	for hi := 0; hi < nh; hi++ {
-		cfg := baseCfgs[r.Intn(len(baseCfgs))]
+		cfg := baseCfg(r, r.Intn(len(baseCfgs)))
 		o := histOpts{units: 4 + r.Intn(8), maxCols: 3, maxRows: 2, rotations: true, ignorables: true, bigOffsets: hi%3 == 0}
 		h := genHistory(r, cfg, o)
 		h.encode(c)
@@ -389,7 +389,7 @@ func runC04(c *Ctx) {
 	r := c.Rng
 	nh := c.N(5, 120)
 	for hi := 0; hi < nh; hi++ {
-		cfg := baseCfgs[r.Intn(len(baseCfgs))]
+		cfg := baseCfg(r, r.Intn(len(baseCfgs)))
 		o := histOpts{units: 3 + r.Intn(6), maxCols: 3, maxRows: 2, rotations: true, ignorables: hi%2 == 0}
 		h := genHistory(r, cfg, o)
 		h.encode(c)
@@ -527,11 +527,11 @@ func runC01(c *Ctx) {
 	r := c.Rng
 	nh := c.N(30, 600)
 	for hi := 0; hi < nh; hi++ {
-		cfg := baseCfgs[hi%len(baseCfgs)]
+		cfg := baseCfg(r, hi)
 		if r.Chance(1, 4) {
 			cfg = randCfg(r)
 		}
-		o := histOpts{units: 3 + r.Intn(7), maxCols: 1 + r.Intn(12), maxRows: 3, rotations: r.Bool(), ignorables: hi%2 == 0}
+		o := histOpts{units: 3 + r.Intn(7), maxCols: 1 + r.Intn(12), maxRows: 3, rotations: r.Bool(), ignorables: hi%2 == 0, oddCols: true}
 		if r.Chance(1, 10) {
 			o.maxCols = 40
 		}
@@ -556,6 +556,7 @@ func runC01(c *Ctx) {
 			cl = "trivial/" + cl
 		}
 		c.R.Count(cl)
+		c.R.Dist[cfg.PadKey()]++
 		for k := range fam {
 			c.R.Dist["type:"+k]++
 		}
@@ -585,18 +586,22 @@ func runC01(c *Ctx) {
 func typedHistories(c *Ctx, prop string, cases []int, n int) {
 	r := c.Rng
 	for hi := 0; hi < n; hi++ {
-		cfg := baseCfgs[hi%len(baseCfgs)]
+		cfg := baseCfg(r, hi)
 		h := genHistory(r, cfg, histOpts{units: 3 + r.Intn(4), maxCols: 2 + r.Intn(10), maxRows: 3, rotations: false, ignorables: false,
-			kindsOnly: []string{"txXid", "autoRows", "txCommit"}, colCases: cases})
+			kindsOnly: []string{"txXid", "autoRows", "txCommit"}, colCases: cases, oddCols: true})
 		h.encode(c)
 		nulls, absents := false, false
 		for _, e := range h.events {
 			if e.rows != nil {
 				nulls = nulls || e.rows.nullsSeen
 				absents = absents || e.rows.absentSeen
+				if nc := len(e.table.cols); nc > 8 && nc%8 != 0 && e.rows.absentSeen && e.cfg.PadCols != 0 {
+					c.R.Dist["rows events: partial image, > 8 columns (not a multiple of 8), padding bits set in the presence bitmap"]++
+				}
 			}
 		}
 		c.R.Count(fmt.Sprintf("end-to-end/%s/null%v/absent%v", cfg.Key(), nulls, absents))
+		c.R.Dist["e2e-"+cfg.PadKey()]++
 		checkFullRun(c, prop, h, "end-to-end")
 	}
 }
